@@ -4,7 +4,9 @@ import random
 
 import core
 import corecheck
+import e2e
 import gen
+from common import run_harness
 
 
 def relayout(rng, rows):
@@ -130,6 +132,29 @@ def run(res, ctx):
             st["distinct_nontrivial"] += 1
             if len(samples) < 2:
                 samples.append({"original": x["hc"]["files"], "relaid": y["hc"]["files"], "layout": desc})
+    # end-to-end pass: the cells of the SAME CSV texts -> extracted reader + bridge + ledger
+    # (coq/Model/Bridge.v read_and_run), against the implementation and against the
+    # Python-encoded model run; then the hand-written corpus aimed at the glue
+    e2e_diffs = []
+    for rs, cs in ((ra, orig), (rb, relaid)):
+        dd, est, _ = e2e.run_pass([r["hc"] for r in rs], [r["raw"] for r in rs],
+                                  [e2e.init_pairs(c) for c in cs], [r["dec"] for r in rs])
+        st.update(est)
+        e2e_diffs += [(rs[k]["hc"], d) for k, d in dd]
+    glue = e2e.glue_corpus()
+    ghc = [{"files": c["files"], "init": gen.init_specs(c), "render": False, "costs": False} for c in glue]
+    graw = run_harness(ctx["exe"], "core", ghc)
+    dd, est, gout = e2e.run_pass(ghc, graw, [e2e.init_pairs(c) for c in glue])
+    st.update(est)
+    st["e2e-glue-corpus"] = len(glue)
+    for g, o in zip(glue, gout):
+        st["e2e-glue-" + o["status"]] += 1
+    e2e_diffs += [(dict(ghc[k], corpus=glue[k]["name"]), d) for k, d in dd]
+    if e2e_diffs and not res.violations:
+        hc, d = e2e_diffs[0]
+        res.violation("broken-correspondence", "reader + bridge model and implementation differ: " + d,
+                      {"theorem_or_projection": "correspondence projection C07 end-to-end (cells of the CSV text -> parse_table -> tx_try_from -> abs_tx -> run_app)",
+                       "input": hc, "difference": d, "differing_cases": len(e2e_diffs)}, found_input=False)
     if corr and not res.violations:
         r, d = corr[0]
         res.violation("broken-correspondence", "model (dec) and implementation differ: " + d,
@@ -137,10 +162,14 @@ def run(res, ctx):
                        "input": r["hc"], "difference": d}, found_input=False)
     res.coverage.update({
         "evaluations": 2 * st["evaluations"],
+        "e2e_evaluations": st["e2e-evaluations"],
+        "e2e_rule": "every CSV text of the run (original and re-laid-out, several files) and an 80-case corpus aimed at the glue are tokenised with Python's csv module and their cells given to the extracted Rocq reader + bridge + ledger (entry 30 of Exec/CodecE2E.v); compared with the implementation bit-exactly (status, rejection class by message, every delta: action, affiliate, settlement day, balances before/after, ACB, gain, superficial-loss data), row by row with the Tx values the implementation parsed (shares, price, commission, both exchange rates, split terms and whole-number flag, dates, affiliate id and registered flag, read index), and with the Python-encoded model run (identical output required); the e2e:* counters of input_distribution count the kinds of cells exercised",
         "distinct_nontrivial": st["distinct_nontrivial"],
         "rule": "each seeded random input is run as generated and re-laid-out (random file partition, column permutation, header case/padding, unknown columns incl. a blank-headed one, row permutation keeping the relative order of same-security same-settlement-date rows); non-trivial = layout differs and the input parses; distinct by SHA-1 of the original CSV",
         "samples": samples,
         "input_distribution": dict(sorted(st.items())),
         "traces_validated_against_impl": 2 * st["evaluations"],
     })
-    res.assumptions += ["CSV tokenisation/quoting (csv crate), Unicode case folding and whitespace trimming are exercised, not modelled (the header theorems are parametric in the recognition function)"]
+    res.assumptions += ["CSV tokenisation/quoting (csv crate) is exercised, not modelled: the end-to-end pass tokenises with Python's csv module (same RFC-4180 dialect on the generated texts)",
+                        "header recognition and field parsing are the byte-level model of Model/CsvFields.v / CsvTable.v: ASCII case folding (str::to_lowercase / to_uppercase on non-ASCII letters is outside; for header recognition this loses nothing, no column name contains a letter that a non-ASCII character folds to), str::trim on the Unicode White_Space bytes",
+                        "a USD amount without an exchange rate needs the rate loader (RejOther 98 in the bridge model): outside"]
